@@ -383,6 +383,80 @@ async def rebind_scenario():
     return out
 
 
+async def names_values_scenario():
+    """names and values are transparent: a method whose name starts with an underscore is a method like any other (it runs on the
+    owner's loop and thread), a non-callable private attribute is refused like a public one, and a coroutine's return value is
+    relayed as a value whatever its type - also when it is an exception instance"""
+    import bellows.thread as th
+
+    thread = th.EventLoopThread()
+    await thread.start()
+    out = []
+    me = threading.get_ident()
+    try:
+        class Box:
+            def __init__(self):
+                self.ran = []
+                self._data = 5
+
+            def _flush(self, tag):
+                self.ran.append(("_flush", threading.get_ident()))
+
+            async def _drain(self, tag):
+                self.ran.append(("_drain", threading.get_ident()))
+                return ("ret", tag)
+
+            def __reset__(self, tag):
+                self.ran.append(("__reset__", threading.get_ident()))
+
+            async def last_error(self, tag):
+                self.ran.append(("last_error", threading.get_ident()))
+                return ValueError(tag)
+
+            async def last_cancel(self, tag):
+                return asyncio.CancelledError()
+
+        box = Box()
+        proxy = th.ThreadsafeProxy(box, thread.loop)
+
+        def where(name):
+            hit = [t for n, t in box.ran if n == name]
+            return "not-run" if not hit else ("caller-thread" if hit[-1] == me else "owner-thread")
+
+        r = proxy._flush(1)
+        await thread.run_coroutine_threadsafe(asyncio.sleep(0.02))
+        out.append(("_flush", f"{'queued' if r is None else 'returned:' + repr(r)} {where('_flush')}"))
+        r = await asyncio.wait_for(proxy._drain(2), 5)
+        out.append(("_drain", f"{r!r} {where('_drain')}"))
+        r = proxy.__reset__(3)
+        await thread.run_coroutine_threadsafe(asyncio.sleep(0.02))
+        out.append(("__reset__", f"{'queued' if r is None else 'returned:' + repr(r)} {where('__reset__')}"))
+        try:
+            proxy._data
+            out.append(("_data", "accepted"))
+        except TypeError:
+            out.append(("_data", "refused"))
+        try:
+            r = await asyncio.wait_for(proxy.last_error(4), 5)
+            out.append(("last_error", f"value:{type(r).__name__}:{r.args!r} {where('last_error')}"))
+        except BaseException as e:  # noqa: BLE001
+            out.append(("last_error", f"raised:{type(e).__name__}"))
+        try:
+            r = await asyncio.wait_for(proxy.last_cancel(5), 5)
+            out.append(("last_cancel", f"value:{type(r).__name__}"))
+        except BaseException as e:  # noqa: BLE001
+            out.append(("last_cancel", f"raised:{type(e).__name__}"))
+    except BaseException as e:  # noqa: BLE001
+        out.append(("error", type(e).__name__))
+    finally:
+        thread.force_stop()
+    return out
+
+
+NAMES_VALUES_WANT = {"_flush": "queued owner-thread", "_drain": "('ret', 2) owner-thread", "__reset__": "queued owner-thread", "_data": "refused",
+                     "last_error": "value:ValueError:(4,) owner-thread", "last_cancel": "value:CancelledError"}
+
+
 async def scenario(ctx_rows, burst):
     import bellows.thread as th
 
@@ -647,6 +721,15 @@ def run(ctx):
         if obs != want:
             ctx.violation(f"attribute re-bound on the wrapped object after a first use through the proxy ({kind}): observed {obs}, expected {want}",
                           {"kind": "rebind"}, {"kind": "rebind"})
+    # names and values are transparent
+    for kind, obs in asyncio.run(names_values_scenario()):
+        ctx.cov["evaluations"] += 1
+        ctx.cov["distinct_nontrivial"] += 1
+        ctx.count("names-values:" + kind)
+        want = NAMES_VALUES_WANT.get(kind)
+        if obs != want:
+            ctx.violation(f"through the proxy from another loop, {kind}: observed {obs}, expected {want} (a private name is a name like any other; a returned "
+                          "exception instance is a value)", {"kind": "names-values"}, {"kind": "names-values"})
     # the stop request in the start-up window
     for _ in range(ctx.n(2, 5)):
         obs = asyncio.run(window_stop_scenario())
@@ -713,6 +796,13 @@ def replay(ctx, obj):
         o = asyncio.run(slow_stop_scenario(r["seconds"]))
         bad = o not in ("value:cleaned", "cancelled")
         print(f"replay stop with slow clean-up: {o}: {'FAILS' if bad else 'ok'}")
+        if bad:
+            print(f"VIOLATION property={ctx.pid} replay=replay")
+        return 1 if bad else 0
+    if r.get("kind") == "names-values":
+        rows = asyncio.run(names_values_scenario())
+        bad = [x for x in rows if x[1] != NAMES_VALUES_WANT.get(x[0])]
+        print(f"replay names and values: {rows}: {'FAILS' if bad else 'ok'}")
         if bad:
             print(f"VIOLATION property={ctx.pid} replay=replay")
         return 1 if bad else 0
